@@ -358,10 +358,10 @@ class Engine:
             self.fail.extend(out["fail"])
         return n_runs
 
-    def distribution(self, sc, n, tag, chunk=2500):
-        """n i.i.d. uniform runs of one scenario; returns Counter of outcome keys.  The check module
-        supplies dist_runs(sc, base_seed, tag, start, stop) -> (Counter, set of execution digests)."""
-        jobs = [(self.cid, sc, self.seed, tag, a, min(a + chunk, n)) for a in range(0, n, chunk)]
+    def distribution(self, sc, n, tag, chunk=2500, start=0):
+        """n i.i.d. uniform runs (indexes start..start+n-1) of one scenario; returns Counter of outcome keys.
+        The check module supplies dist_runs(sc, base_seed, tag, start, stop) -> (Counter, set of digests)."""
+        jobs = [(self.cid, sc, self.seed, tag, a, min(a + chunk, start + n)) for a in range(start, start + n, chunk)]
         total = Counter()
         digs = set()
         for cnt, dg in self.map(_dist_chunk, jobs):
@@ -373,6 +373,18 @@ class Engine:
         self.extra["dist_runs"] = self.extra.get("dist_runs", 0) + n
         self.extra["dist_distinct"] = self.extra.get("dist_distinct", 0) + len(digs)
         return total
+
+    def distribution_timed(self, sc, tag, seconds, round_n, min_n, max_n, chunk=2500):
+        """Accumulate rounds of `round_n` runs until `seconds` are used (at least min_n, at most max_n).  The
+        sample size depends on elapsed time only, never on the counts, so judging the total once at the end
+        involves no optional stopping.  Returns (Counter, n)."""
+        total = Counter()
+        n = 0
+        t_end = time.time() + seconds
+        while n < min_n or (time.time() < t_end and n < max_n):
+            total.update(self.distribution(sc, round_n, tag, chunk=chunk, start=n))
+            n += round_n
+        return total, n
 
     def search_for(self, seconds, round_runs, start=0, max_runs=None):
         """Rounds of `round_runs` runs until the wall budget is used (thorough tier)."""
